@@ -417,6 +417,11 @@ pub fn f_types(thorough: bool) -> Vec<Ty> {
             let mut mid = unit_variant("Point", None);
             mid.from = 1;
             out.push(enm(ri, false, vec![unit_variant("Nothing", None), mid.clone(), tuple_variant("Circle", &[payload.clone()], None)]));
+            // the variant behind the inserted one is itself a unit variant
+            let mut mid2 = unit_variant("Point", None);
+            mid2.from = 1;
+            out.push(enm(ri, false, vec![tuple_variant("Circle", &[payload.clone()], None), unit_variant("Low", None), unit_variant("High", None)]));
+            out.push(enm(ri, false, vec![tuple_variant("Circle", &[payload.clone()], None), unit_variant("Low", None), mid2, unit_variant("High", None)]));
             let mut first = unit_variant("Point", None);
             first.from = 1;
             out.push(enm(ri, false, vec![first, unit_variant("Nothing", None), tuple_variant("Circle", &[payload.clone()], None)]));
